@@ -6,7 +6,8 @@
 (*   WRITE_FILE / WRITE_DCD / WRITE_CSF : count bytes from the host, HAB status, completion status     *)
 (*   ERROR_STATUS  : HAB status, error code        JUMP_ADDRESS / SKIP_DCD: HAB status (+ status)      *)
 (* The byte stream may arrive in several bursts (a read may return fewer bytes than asked for): that  *)
-(* is ordinary behaviour of a serial line, not a fault.  Faults: the stream ends early (trunc), the    *)
+(* is ordinary behaviour of a serial line, not a fault.  Faults: the stream ends early (trunc), one bit *)
+(* of a status word is flipped (flip; SDP has no CRC, an undefined status value is all there is), the    *)
 (* device reports a failure status (err).                                                              *)
 EXTENDS Naturals, Sequences, FiniteSets, TLC, Json, IOUtils
 Traces == ndJsonDeserialize(IOEnv.TRACE_FILE)
@@ -48,7 +49,8 @@ DevHab == /\ Is("d2h") /\ E.kind = "hab" /\ dev = "hab"
           /\ dev' = (IF E.fault = "trunc" THEN "dead"
                      ELSE IF call.tag = ReadTag THEN (IF devLeft = 0 THEN "idle" ELSE "datain")
                      ELSE IF call.tag = JumpTag THEN "idle" ELSE "status")
-          /\ UNCHANGED <<call, devLeft, hostLeft, devStatusOk, viol>> /\ Adv
+          /\ devStatusOk' = (devStatusOk /\ E.fault # "flip")       \* a HAB status word that is none of its defined values: the acknowledgement is damaged
+          /\ UNCHANGED <<call, devLeft, hostLeft, viol>> /\ Adv
 DevData == /\ Is("d2h") /\ E.kind = "data" /\ dev = "datain" /\ (E.n >= 1 \/ E.fault = "trunc") /\ E.n <= devLeft
            /\ faulted' = (faulted \/ Hit) /\ devLeft' = devLeft - E.n
            /\ dev' = (IF E.fault = "trunc" THEN "dead" ELSE IF devLeft - E.n = 0 THEN "idle" ELSE "datain")
